@@ -514,8 +514,19 @@ func genCase(rng *h.Rng, st h.Stats, maxOps int) string {
 				}
 			}
 			if !isLive {
-				ops = append(ops, fmt.Sprintf("BP:%d:%s:%s", b, h.Hex(g.key()), h.Hex(g.value(i))))
-				st.Inc("op-on-dead-batch")
+				switch rng.Intn(4) {
+				case 0:
+					ops = append(ops, fmt.Sprintf("BP:%d:%s:%s", b, h.Hex(g.key()), h.Hex(g.value(i))))
+				case 1:
+					ops = append(ops, fmt.Sprintf("BD:%d:%s", b, h.Hex(g.key())))
+				case 2:
+					ops = append(ops, fmt.Sprintf("BC:%d", b))
+				default:
+					// Close of a committed batch is legal (once); of a closed or absent batch it is not
+					ops = append(ops, fmt.Sprintf("BX:%d", b))
+					committed = remove(committed, b)
+				}
+				st.Inc("op-on-finished-or-absent-batch")
 			}
 		default:
 			p, s := g.prefixStart()
@@ -632,7 +643,7 @@ func redisReplayable(hist string) bool {
 
 func gen(rng *h.Rng, tier string, emit func(string)) {
 	st := h.Stats{}
-	nMem, nPebble, nRedis, maxOps := 12000, 700, 5000, 36
+	nMem, nPebble, nRedis, maxOps := 20000, 1000, 6000, 36
 	if tier == "thorough" {
 		nMem, nPebble, nRedis, maxOps = 300000, 15000, 120000, 60
 	}
